@@ -101,6 +101,27 @@ fn v6_in(net: &Ipv6Network, a: Ipv6Addr) -> bool {
 }
 #[kani::proof]
 #[kani::unwind(20)]
+fn c14_subnet_single_v4() {
+    // one IPv4 block, every prefix length 0..32, every address pair, every side setting
+    let p4: u8 = kani::any(); kani::assume(p4 <= 32);
+    let net = Ipv4Network::new(any_v4(), p4).unwrap();
+    let f = SubnetFilter { ipv4_subnets: vec![net], ipv6_subnets: Vec::new(), check_source: kani::any(), check_destination: kani::any() };
+    let (s, d) = (any_v4(), any_v4());
+    let expect = (f.check_source && v4_in(&net, s)) || (f.check_destination && v4_in(&net, d));
+    assert!(f.matches(&IpAddr::V4(s), &IpAddr::V4(d)) == expect);
+}
+#[kani::proof]
+#[kani::unwind(20)]
+fn c14_subnet_single_v6() {
+    let p6: u8 = kani::any(); kani::assume(p6 <= 128);
+    let net = Ipv6Network::new(any_v6(), p6).unwrap();
+    let f = SubnetFilter { ipv4_subnets: Vec::new(), ipv6_subnets: vec![net], check_source: kani::any(), check_destination: kani::any() };
+    let (s, d) = (any_v6(), any_v6());
+    let expect = (f.check_source && v6_in(&net, s)) || (f.check_destination && v6_in(&net, d));
+    assert!(f.matches(&IpAddr::V6(s), &IpAddr::V6(d)) == expect);
+}
+#[kani::proof]
+#[kani::unwind(20)]
 fn c14_subnet_matches() {
     let p4: u8 = kani::any(); kani::assume(p4 <= 32);
     let p4b: u8 = kani::any(); kani::assume(p4b <= 32);
